@@ -113,7 +113,8 @@ def main():
             if not ok:
                 problems.append("sync_directory(): no f(data)sync on the directory")
         elif kind == "delete":
-            ok = any(n in ("unlink", "unlinkat") and full in a and r == 0 for (n, a, r) in evs)
+            # the call may legitimately find nothing to delete (ENOENT)
+            ok = any(n in ("unlink", "unlinkat") and full in a for (n, a, r) in evs)
             if not ok:
                 problems.append("delete(%s): no unlink of the file" % path)
 
